@@ -431,6 +431,230 @@ let check_aff_twin id fm tm fs_s ts_s w_s b_s w2_s b2_s =
     go 0 fts qts w b w2 b2
   end
 
+
+(* ==== second extension: accuracy of the statistics, advertised properties of the scaled columns (C14_Float2.v), and the
+   wrappers linear_t::fit / predict (C14_Wrap.v) ================================================================================ *)
+(* PROVED bounds evaluated in exact rational arithmetic on the implementation's own values (explicit formulas, independent of the
+   extracted model) whenever the no-overflow / no-underflow hypotheses hold; counted as fallback otherwise *)
+let acc_mean = ref 0 and acc_stdev = ref 0 and acc_fallback = ref 0
+let zm_cols = ref 0 and range_vals = ref 0 and unit_cols = ref 0 and scaled_fallback = ref 0
+let lin_models = ref 0 and lin_preds = ref 0 and lin_missing = ref 0 and lin_discrepancy = ref 0 and lin_fallback = ref 0
+let enabled_cols : (string, int * bool) Hashtbl.t = Hashtbl.create 1024     (* id -> (number of finite entries, enabled) *)
+let one_p_u = q1 +/ u53 and one_m_u = q1 -/ u53
+let sqq x = x */ x
+
+(* this stage works on whole columns (up to 300 entries, three passes each): Zarith's normalised rationals (module Q) instead of
+   the extracted record [q] whose sums are not reduced *)
+module R = Q
+let rf (x : float) : R.t = R.of_float x                       (* exact for finite doubles *)
+let r2 k = if k >= 0 then R.of_bigint (B.shift_left_big_int B.unit_big_int k) else R.inv (R.of_bigint (B.shift_left_big_int B.unit_big_int (- k)))
+let ru = r2 (-53)
+let rsq x = R.mul x x
+let rsumf f l = List.fold_left (fun s x -> R.add s (f x)) R.zero l
+let rle a b = R.leq a b
+let rclose a b tol = rle (R.abs (R.sub a b)) tol
+(* gamma_k = k u / (1 - k u) >= g k = (1 + u)^k - 1  (C14_fl_gamma): a proved bound with a small numerator / denominator *)
+let gam k = R.div (R.mul (R.of_int k) ru) (R.sub R.one (R.mul (R.of_int k) ru))
+let rnu t = R.equal t R.zero || rle (r2 (-1022)) (R.abs t)
+let r1pu2 = rsq (R.add R.one ru) and r1mu2 = rsq (R.sub R.one ru)
+
+(* exact statistics of the finite entries and the hypotheses of C14_fl_mean_accuracy / C14_fl_stdev_accuracy *)
+type colx = { cn : int; cS : R.t; cA : R.t; cQ : R.t; cvar : R.t; cerr : R.t; cmean_ok : bool; cvar_ok : bool }
+let column_exact (col : float list) : colx =
+  let fin = List.filter Float.is_finite col in
+  let n = List.length fin in
+  let qs = List.map rf fin in
+  let s = rsumf (fun x -> x) qs and a = rsumf R.abs qs and q2 = rsumf rsq qs in
+  let nq = R.of_int n in
+  (* the running sums as update() computes them (binary64, left to right) *)
+  let fs = List.fold_left (fun acc x -> acc +. x) 0.0 fin in
+  let fq = List.fold_left (fun acc x -> acc +. x *. x) 0.0 fin in
+  if n < 2 then { cn = n; cS = s; cA = a; cQ = q2; cvar = R.zero; cerr = R.zero; cmean_ok = false; cvar_ok = false }
+  else begin
+    let n1 = R.of_int (n - 1) in
+    let var = R.div (R.sub q2 (R.div (rsq s) nq)) n1 in
+    let err = R.div (R.add (R.mul (gam (n + 2)) q2) (R.mul (gam (2 * n + 2)) (R.div (rsq a) nq))) n1 in
+    let p = fs *. fs in
+    let qf = p /. float_of_int n in
+    let r = fq -. qf in
+    let finite_ok = Float.is_finite fs && Float.is_finite fq && Float.is_finite p && Float.is_finite r in
+    let mean_ok = finite_ok && rnu (R.div (rf fs) nq) in
+    let var_ok = finite_ok && List.for_all (fun x -> rnu (rsq x)) qs && rnu (rsq (rf fs)) && rnu (R.div (rf p) nq)
+                 && rnu (R.div (rf r) n1) in
+    { cn = n; cS = s; cA = a; cQ = q2; cvar = var; cerr = err; cmean_ok = mean_ok; cvar_ok = var_ok }
+  end
+let rstr x = Printf.sprintf "%h" (R.to_float x)
+
+(* COL: C14_fl_mean_accuracy and C14_fl_stdev_accuracy on the implementation's record *)
+let check_col_accuracy id en ci csize lhs rhs =
+  let ist = parse_stats rhs in
+  let col = floats_of lhs in
+  let cx = column_exact col in
+  Hashtbl.replace enabled_cols id (cx.cn, en <> 0 && ci < csize);
+  if en <> 0 && ci < csize && cx.cn >= 2 && stats_finite ist && ist.n = cx.cn then begin
+    let nq = R.of_int cx.cn in
+    if cx.cmean_ok then begin
+      incr acc_mean;
+      let bnd = R.div (R.mul (gam cx.cn) cx.cA) nq in
+      if not (rclose (rf ist.f.(2)) (R.div cx.cS nq) bnd) then
+        propfail "fl-mean" id (Printf.sprintf "|mean - S/N| exceeds the proved g(N) * sum|x| / N: mean=%h exact=%s bound=%s column=%s"
+                                 ist.f.(2) (rstr (R.div cx.cS nq)) (rstr bnd) lhs)
+    end else incr acc_fallback;
+    if cx.cvar_ok then begin
+      incr acc_stdev;
+      let sd = rf ist.f.(3) in
+      let sd2 = rsq sd in
+      if not (rle R.zero sd && rle sd2 (R.mul (R.add cx.cvar cx.cerr) r1pu2) && rle (R.mul (R.sub cx.cvar cx.cerr) r1mu2) sd2) then
+        propfail "fl-stdev" id (Printf.sprintf "stdev^2 outside [(var - E)(1-u)^2, (var + E)(1+u)^2], E = (g(N+2) sum x^2 + g(2N+2) (sum|x|)^2/N)/(N-1): stdev=%h var=%s E=%s column=%s"
+                                  ist.f.(3) (rstr cx.cvar) (rstr cx.cerr) lhs)
+    end else incr acc_fallback
+  end
+
+(* SC / FSC of a COMPLETE data column (tags f / t): zero mean, range of mean scaling, unit variance of standard scaling *)
+let check_scaled_column id m stats_s (xs : float list) (ss : float list) =
+  let base = match split ' ' id with b :: _ -> b | [] -> id in
+  let ist = parse_stats stats_s in
+  match Hashtbl.find_opt enabled_cols base with
+  | Some (n, true) when n >= 2 && stats_finite ist && ist.n = n && (m = MMean || m = MStandard)
+                        && List.length (List.filter Float.is_finite xs) = n && List.length xs = List.length ss ->
+    let cx = column_exact xs in
+    let pairs = List.filter (fun (x, _) -> Float.is_finite x) (List.combine xs ss) in
+    let mean = ist.f.(2) and d = (if m = MStandard then ist.f.(6) else ist.f.(4)) in
+    let mq = rf mean and dq = rf d in
+    let nq = R.of_int n and n1 = R.of_int (n - 1) in
+    let scale_nu = List.for_all (fun (x, s) -> Float.is_finite s && Float.is_finite (x -. mean) && rnu (R.mul (rf (x -. mean)) dq)) pairs in
+    if cx.cmean_ok && scale_nu && d >= 0.0 then begin
+      let ys = List.map (fun (_, s) -> rf s) pairs in
+      let devs = List.map (fun (x, _) -> R.sub (rf x) mq) pairs in
+      let adev = rsumf R.abs devs in
+      (* C14_fl_zero_mean: |sum y| <= d (g N A + g 2 sum |x - m|) *)
+      incr zm_cols;
+      let sy = rsumf (fun y -> y) ys in
+      let bnd = R.mul dq (R.add (R.mul (gam n) cx.cA) (R.mul (gam 2) adev)) in
+      if not (rle (R.abs sy) bnd) then
+        propfail "fl-zero-mean" id (Printf.sprintf "|sum of the scaled column| = %s exceeds the proved div * (g(N) sum|x| + g(2) sum|x - mean|) = %s stats=%s column=%s"
+                                      (rstr sy) (rstr bnd) stats_s (String.concat "," (List.map (Printf.sprintf "%h") xs)));
+      (* C14_fl_mean_range: |y| <= ((max - min) + delta) d (1+u)^2 + eta, delta = g N A / N *)
+      if m = MMean then begin
+        let mn = rf ist.f.(0) and mx = rf ist.f.(1) in
+        let delta = R.div (R.mul (gam n) cx.cA) nq in
+        let rb = R.add (R.mul (R.mul (R.add (R.sub mx mn) delta) dq) r1pu2) (r2 (-1075)) in
+        List.iter (fun (x, s) ->
+            if ist.f.(0) <= x && x <= ist.f.(1) then begin
+              incr range_vals;
+              if not (rle (R.abs (rf s)) rb) then
+                propfail "fl-mean-range" id (Printf.sprintf "|mean-scaled value| = %h exceeds the proved ((max-min) + g(N) sum|x|/N) div (1+u)^2 + eta = %s x=%h stats=%s"
+                                               (Float.abs s) (rstr rb) x stats_s)
+            end) pairs
+      end;
+      (* C14_fl_scaled_variance + C14_fl_unit_variance: sample variance of the standardised column *)
+      if m = MStandard then begin
+        let svy = R.div (R.sub (rsumf rsq ys) (R.div (rsq sy) nq)) n1 in
+        let spread2 = R.add (rsumf rsq devs) (R.div (rsq adev) nq) in
+        let b1 = R.div (R.mul (R.mul (gam 4) (rsq dq)) spread2) n1 in
+        incr unit_cols;
+        if not (rclose svy (R.mul (rsq dq) cx.cvar) b1) then
+          propfail "fl-scaled-variance" id (Printf.sprintf "|var(scaled) - div^2 var| = %s exceeds the proved g(4) div^2 (sum (x-m)^2 + (sum|x-m|)^2/N)/(N-1) = %s stats=%s"
+                                              (rstr (R.abs (R.sub svy (R.mul (rsq dq) cx.cvar)))) (rstr b1) stats_s);
+        let sd = ist.f.(3) in
+        if cx.cvar_ok && sd >= !epsf && sd > 0.0 && same d (1.0 /. sd) then begin
+          let sdq = rf sd in
+          let k1 = R.sub (R.div r1pu2 r1mu2) R.one in
+          let b2 = R.add (R.add b1 k1) (R.div (R.mul r1pu2 cx.cerr) (rsq sdq)) in
+          if not (rclose svy R.one b2) then
+            propfail "fl-unit-variance" id (Printf.sprintf "|var(standardised column) - 1| = %s exceeds the proved bound %s (rounding of the one-pass variance E/sd^2 = %s) stats=%s"
+                                              (rstr (R.abs (R.sub svy R.one))) (rstr b2) (rstr (R.div cx.cerr (rsq sdq))) stats_s)
+        end
+      end
+    end else incr scaled_fallback
+  | _ -> ()
+
+(* LIN / LPR: the wrappers. The stored model must be the twin of nano::upscale of the fitted (W, b) with the translated mode
+   pair (bit for bit on the weights, proved bound on the bias: the AFF checks); linear_t::predict on raw rows (missing -> raw 0)
+   within the proved floating-point bound of the exact composition wrap_predict (fit_store ...) and of the explicit formula *)
+type lin = { lp : mode; lfis : istats list; ltis : istats list; lw : float list list; lb : float list; lw2 : float list list; lb2 : float list }
+let lins : (string, lin) Hashtbl.t = Hashtbl.create 64
+let model_stats_wf st = let s = model_stats st in { s with s_mul_range = q1 // s.s_div_range; s_mul_stdev = q1 // s.s_div_stdev }
+let rec qlist_eq a b = match a, b with
+  | [], [] -> true | x :: a', y :: b' -> qeq_bool x y && qlist_eq a' b' | _ -> false
+
+let check_lin id p fs_s ts_s w_s b_s w2_s b2_s =
+  let fm = fit_mode_f p and tm = fit_mode_t p in
+  incr lin_models;
+  (* same checks as an AFF line, with the mode pair the wrapper hands to nano::upscale (translated from linear.cpp) *)
+  check_aff ("lin " ^ id) fm tm fs_s ts_s w_s b_s w2_s b2_s;
+  check_aff_twin ("lin " ^ id) fm tm fs_s ts_s w_s b_s w2_s b2_s;
+  let rows s = List.map floats_of (split '/' s) in
+  Hashtbl.replace lins id { lp = p; lfis = List.map parse_stats (split '/' fs_s); ltis = List.map parse_stats (split '/' ts_s);
+                            lw = rows w_s; lb = floats_of b_s; lw2 = rows w2_s; lb2 = floats_of b2_s }
+
+let check_lpr id (xs : float list) (ps : float list) =
+  match Hashtbl.find_opt lins id with
+  | None -> ()
+  | Some l when List.for_all stats_finite l.lfis && List.for_all stats_finite l.ltis && List.for_all Float.is_finite ps ->
+    incr total; incr lin_preds;
+    let fm = fit_mode_f l.lp and tm = fit_mode_t l.lp in
+    let qfs = List.map model_stats_wf l.lfis and qts = List.map model_stats_wf l.ltis in
+    let wq = List.map (List.map q_of_float) l.lw and bq = List.map q_of_float l.lb in
+    let raw = List.map opt_of_float xs in
+    let missing = List.exists (fun v -> v = None) raw in
+    if missing then incr lin_missing;
+    let c = List.length qfs in
+    (* the extracted composition: exact store, then predict as do_predict reads the row *)
+    let stored = fit_store l.lp qfs qts wq bq in
+    let pm = wrap_predict qfs stored raw in
+    let x0 = zero_missing raw in
+    let ref0 = ref_predict fm tm qfs qts wq bq (List.map (fun x -> Some x) x0) in
+    if not (qlist_eq pm ref0) then
+      report "lin-theorem" id "wrap_predict (fit_store ..) raw differs from ref_predict on the row with missing -> raw 0 (C14_wrap_predict_missing_is_raw_zero)";
+    if missing then begin
+      let refs = ref_predict fm tm qfs qts wq bq raw in
+      let mt = miss_terms fm tm qfs qts wq raw in
+      if not (qlist_eq pm (qadd_list refs mt)) then report "lin-theorem" id "C14_wrap_predict_missing fails on this row";
+      if not (qlist_eq pm refs) then begin
+        incr lin_discrepancy;
+        (* observation (not a violation, see notes/C14.md): the first such row of a run is shown for the record *)
+        if !lin_discrepancy = 1 then
+          Printf.printf "NOTE lin-missing %s mode=%d x=%s exact model with missing -> raw 0 (what linear_t::predict computes): %s ; with missing -> scaled 0 (training convention): %s ; library: %s\n"
+            id (B.int_of_big_int (z_of_mode l.lp)) (String.concat "," (List.map (Printf.sprintf "%h") xs))
+            (String.concat "," (List.map (fun v -> Printf.sprintf "%.17g" (float_of_q v)) pm))
+            (String.concat "," (List.map (fun v -> Printf.sprintf "%.17g" (float_of_q v)) refs))
+            (String.concat "," (List.map (Printf.sprintf "%.17g") ps))
+      end
+    end;
+    (* the library's prediction against the explicit exact formula, within the proved bound *)
+    let offs = List.map (off_of fm) qfs and dvs = List.map (scaling_w fm) qfs and fbx = List.map (scaling_b fm) qfs in
+    let rec go i qts w b w2 b2 ps pm =
+      match qts, w, b, w2, b2, ps, pm with
+      | t :: qts', wr :: w', bi :: b', wr2 :: w2', bi2 :: b2', pv :: ps', pmv :: pm' ->
+        let twq = scaling_w tm t and tbx = scaling_b tm t and toff = off_of tm t in
+        let inner = List.fold_left2 (fun s wv (x, (o, d)) -> s +/ (wv */ ((x -/ o) */ d))) bi
+            wr (List.combine x0 (List.combine offs dvs)) in
+        let exact = toff +/ (inner // twq) in
+        let w2q = List.map q_of_float wr2 in
+        let magn = List.fold_left2 (fun s wv fbv -> s +/ qabs (wv */ fbv)) (qabs bi +/ qabs tbx) wr fbx in
+        let wsum = List.fold_left2 (fun s wv (d, x) -> s +/ qabs (wv // twq */ d */ x)) qz wr (List.combine dvs x0) in
+        let dsum = List.fold_left2 (fun s w2v x -> s +/ qabs (w2v */ x)) (qabs (q_of_float bi2)) w2q x0 in
+        let bnd = (gq 2 */ wsum) +/ (gq (c + 4) */ magn // qabs twq) +/ (gq (c + 1) */ dsum) in
+        let twf = float_of_q twq in
+        let hyp = List.for_all nu fbx && nu tbx && Float.abs bi2 > 0x1p-1022
+                  && List.for_all2 (fun wv fbv -> nu (wv */ fbv)) wr fbx
+                  && List.for_all2 (fun wv d -> nu (wv // twq) && nu (q_of_float (float_of_q wv /. twf) */ d)) wr dvs
+                  && List.for_all2 (fun w2v x -> nu (w2v */ x)) w2q x0 in
+        let bnd = if hyp then bnd else begin incr lin_fallback; (q_of_int 4 */ bnd) +/ tiny end in
+        let pq = q_of_float pv in
+        if not (close pq exact bnd) then
+          propfail "fl-lin-predict" id (Printf.sprintf "output=%d linear_t::predict = %h but the exact up-scaled model on the scaled row (missing -> raw 0) = %h, proved bound %h; x=%s stored w'=%s b'=%h"
+                                          i pv (float_of_q exact) (float_of_q bnd)
+                                          (String.concat "," (List.map (Printf.sprintf "%h") xs))
+                                          (String.concat "," (List.map (Printf.sprintf "%h") wr2)) bi2);
+        if not (close pq pmv bnd) then
+          report "lin-predict" id (Printf.sprintf "output=%d predict=%h extracted wrap_predict (fit_store ..)=%h bound=%h" i pv (float_of_q pmv) (float_of_q bnd));
+        go (i + 1) qts' w' b' w2' b2' ps' pm'
+      | _ -> () in
+    go 0 qts wq bq l.lw2 l.lb2 ps pm
+  | Some _ -> report "lin-nonfinite" id "statistics or predictions of the linear model are not finite"
+
 let () =
   (try
     while true do
@@ -456,7 +680,8 @@ let () =
                     | [id; en; ci; cs] ->
                       let v s = int_of_string (List.nth (split '=' s) 1) in
                       check_col id (v en) (v ci) (v cs) vals rhs;
-                      check_col_twin id (v en) (v ci) (v cs) vals rhs
+                      check_col_twin id (v en) (v ci) (v cs) vals rhs;
+                      check_col_accuracy id (v en) (v ci) (v cs) vals rhs
                     | _ -> ())
                  | _ -> ())
               | _ -> ())
@@ -469,7 +694,10 @@ let () =
                     | [id; m] ->
                       check_sc (id ^ " " ^ m) (mode_of_string m) st vals rhs;
                       (match split_str " ; " rhs with
-                       | [ss; us] -> check_sc_twin (id ^ " " ^ m) (mode_of_string m) st (floats_of vals) (floats_of ss) (floats_of us)
+                       | [ss; us] -> check_sc_twin (id ^ " " ^ m) (mode_of_string m) st (floats_of vals) (floats_of ss) (floats_of us);
+                         (* a column of at most 20 entries is listed completely (longer ones come as FSC lines) *)
+                         if List.length (floats_of vals) <= 20 then
+                           check_scaled_column (id ^ " " ^ m) (mode_of_string m) st (floats_of vals) (floats_of ss)
                        | _ -> ())
                     | _ -> ())
                  | _ -> ())
@@ -481,7 +709,8 @@ let () =
                 (match split_str " | " l, split_str " ; " rhs with
                  | [hd; st; vals], [ss; us] ->
                    (match split ' ' (String.trim hd) with
-                    | [id; m] -> check_sc_twin (id ^ " " ^ m) (mode_of_string m) st (floats_of_bits vals) (floats_of_bits ss) (floats_of_bits us)
+                    | [id; m] -> check_sc_twin (id ^ " " ^ m) (mode_of_string m) st (floats_of_bits vals) (floats_of_bits ss) (floats_of_bits us);
+                      check_scaled_column (id ^ " " ^ m) (mode_of_string m) st (floats_of_bits vals) (floats_of_bits ss)
                     | _ -> ())
                  | _ -> ())
               | _ -> ())
@@ -497,9 +726,30 @@ let () =
                     | _ -> ())
                  | _ -> ())
               | _ -> ())
+           | "LIN" ->
+             (match split_str " = " rest with
+              | [l; rhs] ->
+                (match split_str " | " l, split_str " | " rhs with
+                 | [hd; fs; ts; w; b], [w2; b2] ->
+                   (match split ' ' (String.trim hd) with
+                    | [id; _model; m] -> check_lin id (mode_of_string m) fs ts w b w2 b2
+                    | _ -> ())
+                 | _ -> ())
+              | _ -> ())
+           | "LPR" ->
+             (match split_str " = " rest with
+              | [l; rhs] ->
+                (match split_str " | " l with
+                 | [hd; xs] ->
+                   (match split ' ' (String.trim hd) with
+                    | id :: _ -> check_lpr id (floats_of xs) (floats_of rhs)
+                    | _ -> ())
+                 | _ -> ())
+              | _ -> ())
            | _ -> ())
         with Failure msg | Invalid_argument msg -> report "driver" op ("cannot process line: " ^ msg))
     done
   with End_of_file -> ());
-  Printf.printf "MODEL-DONE checked=%d mismatches=%d propfails=%d twin_values=%d bound_values=%d minmax_values=%d chain_overflow=%d bias_bound=%d bias_fallback=%d finite_cols=%d pred_bound=%d\n"
+  Printf.printf "MODEL-DONE checked=%d mismatches=%d propfails=%d twin_values=%d bound_values=%d minmax_values=%d chain_overflow=%d bias_bound=%d bias_fallback=%d finite_cols=%d pred_bound=%d acc_mean=%d acc_stdev=%d acc_fallback=%d zm_cols=%d range_vals=%d unit_cols=%d scaled_fallback=%d lin_models=%d lin_preds=%d lin_missing=%d lin_discrepancy=%d lin_fallback=%d\n"
     !total !mism !pf !twin_values !bound_values !minmax_values !chain_overflow !bias_bound !bias_fallback !finite_cols !pred_bound
+    !acc_mean !acc_stdev !acc_fallback !zm_cols !range_vals !unit_cols !scaled_fallback !lin_models !lin_preds !lin_missing !lin_discrepancy !lin_fallback
